@@ -172,7 +172,10 @@ let run_history (hline : string) (ops : string list) =
        | Some t -> ({ st_tree = Some t; st_copy = None; st_iters = []; st_rc = []; st_held = [] }, UNone)
        | None -> st_init (z_of_int cap))
     else st_init (z_of_int cap) in
-  pr "O %s 0 %s\n" hid (s_out o0);
+  (* argument parsing (PyArg_ParseTupleAndKeywords "|i") is glue, not model: a capacity outside the
+     C int range never reaches BPlusTree_init and is rejected with OverflowError *)
+  if cap > 2147483647 || cap < -2147483648 then pr "O %s 0 OverflowError\n" hid
+  else pr "O %s 0 %s\n" hid (s_out o0);
   dump_state hid 0 s0;
   let n = List.length ops in
   let s = ref s0 in
